@@ -80,6 +80,32 @@ type Case struct {
 	NoLog     bool   `json:"no_log,omitempty"`     // drc without -L (do-approve always passes a log directory)
 	OddAction bool   `json:"odd_action,omitempty"` // do-approve <Action> DEVICE with an arbitrary action word
 	Action    string `json:"action,omitempty"`
+	// PAN-OS: the vsys Netspoc manages, in device order, one letter each: m = display-name carries
+	// the marker, u = it does not ("" = one vsys, marked according to Marker)
+	VsysMarks string `json:"vsys_marks,omitempty"`
+	// PAN-OS: the candidate configuration carries dirtyId/admin/time attributes (state after an interrupted approve)
+	Dirty bool `json:"dirty,omitempty"`
+	// CLI types: this command of the login/set-up dialogue is answered with an error line
+	ErrOn string `json:"err_on,omitempty"`
+}
+
+func (c Case) marks() string {
+	if c.VsysMarks != "" {
+		return c.VsysMarks
+	}
+	if c.Marker == "absent" {
+		return "u"
+	}
+	return "m"
+}
+
+// managedVsys: names of the vsys that are in the Netspoc configuration
+func (c Case) managedVsys() []string {
+	var l []string
+	for i := range c.marks() {
+		l = append(l, fmt.Sprintf("vsys%d", i+1))
+	}
+	return l
 }
 
 // haPermits: the HA answers under which PAN-OS may be configured (specification side).
@@ -112,7 +138,7 @@ func (c Case) interlock() string {
 		return "hostname"
 	case c.Backend == "panos" && !haPermits(c.HA):
 		return "ha"
-	case c.Backend == "panos" && c.Marker == "absent":
+	case c.Backend == "panos" && strings.Contains(c.marks(), "u"):
 		return "marker"
 	case c.Backend != "nsx" && c.Backend != "panos" && c.Marker == "absent":
 		return "marker"
@@ -196,8 +222,12 @@ func (c Case) httpIdx() (dev, target []int) {
 func (c Case) httpNetspoc() string {
 	_, target := c.httpIdx()
 	if c.Backend == "panos" {
-		return `<config><devices><entry name="localhost.localdomain"><vsys><entry name="vsys1">` + panVsysBody(target) +
-			`</entry></vsys></entry></devices></config>` + "\n"
+		var vs []string
+		for _, n := range c.managedVsys() {
+			vs = append(vs, `<entry name="`+n+`">`+panVsysBody(target)+`</entry>`)
+		}
+		return `<config><devices><entry name="localhost.localdomain"><vsys>` + strings.Join(vs, "") +
+			`</vsys></entry></devices></config>` + "\n"
 	}
 	var l []string
 	for _, i := range target {
@@ -234,11 +264,15 @@ func (c Case) names() []string {
 }
 
 func (c Case) vsys() []Vsys {
-	d := "FW7-managed-by-Netspoc"
-	if c.Marker == "absent" {
-		d = "FW7"
+	var l []Vsys
+	for i, m := range c.marks() {
+		d := fmt.Sprintf("FW%d-managed-by-Netspoc", i+1)
+		if m == 'u' {
+			d = fmt.Sprintf("FW%d", i+1)
+		}
+		l = append(l, Vsys{fmt.Sprintf("vsys%d", i+1), d})
 	}
-	return []Vsys{{"vsys1", d}, {"vsys2", "not ours"}}
+	return append(l, Vsys{"vsys9", "not ours"})
 }
 
 // ---------------------------------------------------------------- one run of the real code
@@ -334,7 +368,17 @@ func (w *world) cliScenario(c Case, compare bool, transcript string) CliScn {
 	if compare && c.FaultAt >= 0 {
 		scn.FaultAt, scn.FaultKind = c.FaultAt, c.FaultKind
 	}
+	scn.ErrOn = c.ErrOn
 	return scn
+}
+
+const errLine = "ERROR: % Invalid input detected at '^' marker.\n"
+
+// commands of the login / set-up dialogue that a device may answer with an error line
+var errOnCmds = map[string][]string{
+	"asa":   {"sh pager", "terminal pager 0", "sh term", "configure terminal", "terminal width 511", "end", "sh ver"},
+	"ios":   {"term len 0", "term width 512", "sh ver"},
+	"linux": {"uname -r", "uname -m"},
 }
 
 func (w *world) runOnce(c Case, compare bool, tag string) runResult {
@@ -366,7 +410,8 @@ func (w *world) runOnce(c Case, compare bool, tag string) runResult {
 	if c.isHTTP() {
 		dev, _ := c.httpIdx()
 		scn := HttpScn{Type: map[string]string{"panos": "PAN-OS", "nsx": "NSX"}[c.Backend], Hostname: c.reportedName(),
-			HA: c.haStates(), Vsys: c.vsys(), DevRules: dev, DevSvcs: dev, BadConfig: c.BadConfig, FaultAt: -1}
+			HA: c.haStates(), Vsys: c.vsys(), Managed: c.managedVsys(), Dirty: c.Dirty, DevRules: dev, DevSvcs: dev,
+			BadConfig: c.BadConfig, FaultAt: -1}
 		if compare && c.FaultAt >= 0 {
 			scn.FaultAt, scn.FaultKind = c.FaultAt, c.FaultKind
 		}
@@ -512,9 +557,7 @@ func modelLine(c Case, compare bool, plan []string) string {
 	}
 	vs := ""
 	if c.Backend == "panos" {
-		_, target := c.httpIdx()
-		_ = target
-		vs = "vsys1"
+		vs = strings.Join(c.managedVsys(), ",")
 	}
 	f := []string{c.Backend, mode, devName, strings.Join(c.names(), ","), banner, vs, fault, strings.Join(pl, us)}
 	add := func(key, occ, reply string) { f = append(f, key+us+occ+us+reply) }
@@ -522,6 +565,9 @@ func modelLine(c Case, compare bool, plan []string) string {
 	w := &world{}
 	switch c.Backend {
 	case "asa", "ios":
+		if c.ErrOn != "" {
+			add("L:"+c.ErrOn, "0", T(errLine))
+		}
 		scn := w.cliScenario(c, compare, "")
 		p := scn.PromptName
 		pw := scn.Banner + "\nnetspoc@10.1.2.3's password:"
@@ -559,6 +605,9 @@ func modelLine(c Case, compare bool, plan []string) string {
 		add("L:write memory", "*", T("Building configuration...\n[OK]\n"))
 		add("L:reload in 2", "*", T("reload in 2\n\nSystem configuration has been modified. Save? [yes/no]: "))
 	case "linux":
+		if c.ErrOn != "" {
+			add("L:"+c.ErrOn, "0", T(errLine))
+		}
 		scn := w.cliScenario(c, compare, "")
 		prompt := "\r\nroot@" + scn.PromptName + ":~#"
 		switch {
@@ -807,6 +856,35 @@ func matrix(ctx *Ctx, prop string) []Case {
 			}
 		}
 	}
+	// PAN-OS with several managed vsys, marker present/absent per vsys in every order
+	for _, marks := range []string{"mm", "mu", "um", "uu", "mmu", "mum", "umm", "uum", "umu", "muu"} {
+		for _, fr := range fronts {
+			for _, pend := range []int{0, 1} {
+				out = append(out, Case{Backend: "panos", Front: fr, Host: "ok", Marker: "present", HA: "off", Pending: pend, FaultAt: -1, VsysMarks: marks})
+			}
+		}
+	}
+	// PAN-OS candidate configuration left dirty by an interrupted approve
+	for _, marks := range []string{"m", "u", "mu"} {
+		for _, fr := range fronts {
+			for _, pend := range []int{0, 1} {
+				out = append(out, Case{Backend: "panos", Front: fr, Host: "ok", Marker: "present", HA: "off", Pending: pend, FaultAt: -1, VsysMarks: marks, Dirty: true})
+			}
+		}
+	}
+	// a command of the login / set-up dialogue is answered with an error line
+	for _, b := range []string{"asa", "ios", "linux"} {
+		for _, cmdText := range errOnCmds[b] {
+			for _, pend := range []int{0, 1} {
+				c := Case{Backend: b, Front: "drc", Host: "ok", Marker: "present", HA: "off", Pending: pend, FaultAt: -1, ErrOn: cmdText}
+				out = append(out, c)
+				if b == "asa" {
+					c.PagerOff, c.Width511 = true, true
+					out = append(out, c)
+				}
+			}
+		}
+	}
 	// drc without a log directory (-L): compare must end without applying, approve must still obey the gate
 	for _, b := range []string{"asa", "ios", "linux", "panos", "nsx"} {
 		for _, m := range []string{"present", "absent"} {
@@ -851,6 +929,20 @@ func randomCase(r *RNG, prop string) Case {
 	}
 	if c.Front == "drc" {
 		c.NoLog = r.Chance(30)
+	}
+	if b == "panos" {
+		if r.Chance(50) {
+			n := 1 + r.Intn(3)
+			m := ""
+			for i := 0; i < n; i++ {
+				m += Pick(r, []string{"m", "m", "u"})
+			}
+			c.VsysMarks = m
+		}
+		c.Dirty = r.Chance(30)
+	}
+	if l := errOnCmds[b]; len(l) > 0 && r.Chance(25) {
+		c.ErrOn = Pick(r, l)
 	}
 	c.BadConfig = b != "linux" && r.Chance(6)
 	if prop == "C11" && r.Chance(60) {
@@ -962,6 +1054,13 @@ func judge(res *Result, o outcome, prop string, mu *sync.Mutex) {
 	res.Count(fmt.Sprintf("pending:%d", c.Pending))
 	res.Count("interlock:" + map[bool]string{true: il, false: "none"}[il != ""])
 	res.Count("logdir:" + map[bool]string{true: "not-given", false: "given"}[c.NoLog])
+	if c.Backend == "panos" {
+		res.Count("vsys-marks:" + c.marks())
+		res.Count("candidate-dirty:" + strconv.FormatBool(c.Dirty))
+	}
+	if c.ErrOn != "" {
+		res.Count("error-answer-to:" + c.ErrOn)
+	}
 	if c.OddAction {
 		res.Count("action-word:" + strconv.Quote(c.Action))
 	}
